@@ -1209,7 +1209,7 @@ func (s *efState) fillCall(n *EFNode, call *ssa.Call) {
 			if f.Pkg == s.errPkg && f.Name() == "NewError" && i == 0 {
 				continue
 			}
-			if b, ok := a.Type().Underlying().(*types.Basic); ok && b.Info()&types.IsString != 0 {
+			if types.Identical(a.Type(), types.Typ[types.String]) { // not the ErrorCode argument (a named string type)
 				if t := constText(a, 0); t != "" {
 					n.Msg = t
 					break
@@ -1271,6 +1271,14 @@ func (s *efState) fillCall(n *EFNode, call *ssa.Call) {
 			n.Code = code
 		} else {
 			s.notes["code of WithCause receiver not resolved at "+s.prog.Fset.Position(call.Pos()).String()] = true
+		}
+		for _, a := range args {
+			if types.Identical(a.Type(), types.Typ[types.String]) {
+				if t := constText(a, 0); t != "" {
+					n.Msg = t
+					break
+				}
+			}
 		}
 		n.Inner = append(n.Inner, s.flow(c.Args[1], n)...)
 		kept := map[ssa.Value]bool{}
